@@ -1,5 +1,5 @@
 SPECIFICATION Spec
-CONSTANTS N = 2  Max = 2  U = 1  STO = 2  ITO = 1  ASTO = 0  AITO = 2  MaxT = 4  MaxOps = 6
+CONSTANTS N = 2  Max = 2  U = 1  STO = 2  ITO = 1  ASTO = 0  AITO = 2  MaxT = 4  MaxOps = 5
 INVARIANTS Capacity Walled OneHolder StatsBalance EventChain AuthSticky Agree Consistent GhostSane
 VIEW View
 CHECK_DEADLOCK FALSE
